@@ -1,6 +1,153 @@
-From Coq Require Import QArith List.
+(* C15 -- Least-squares and factorisation solvers return the optimum they claim.
+   Property theorems only; each is closed by `exact` and followed by Print Assumptions.
+   Model: C15/Model.v (M = computechi2 and the HMF steps over Q; S = checkers for the LAPACK-backed outputs). *)
+From Coq Require Import QArith ZArith List Bool.
+Import ListNotations.
 From PV Require Import Lib.WLS C13.LinAlg C15.Model C15.Proofs.
 Open Scope Q_scope.
-Theorem C15_dof_spec : forall sq n, cc_dof sq n = (Z.of_nat (length (filter (fun s => Qlt_bool 0 s) sq)) - Z.of_nat n)%Z.
-Proof. exact dof_spec0. Qed.
+
+(* ---------------------------------------------------------------- computechi2 *)
+(* the coefficients minimise sum_i sqivar_i^2 (A_i . x - b_i)^2 over ALL x (any weights: they enter squared) *)
+Theorem C15_chi2_optimal : forall b sq A r, computechi2 b sq A = Some r -> rows_len (ncols A) A ->
+  length (c_acoeff r) = ncols A /\
+  forall z, length z = ncols A -> chi2 (cc_data A sq b) (c_acoeff r) <= chi2 (cc_data A sq b) z.
+Proof. exact chi2_optimal. Qed.
+Print Assumptions C15_chi2_optimal.
+
+(* ... and the gradient of chi-square vanishes there *)
+Theorem C15_chi2_gradient_zero : forall b sq A r, computechi2 b sq A = Some r -> rows_len (ncols A) A ->
+  forall d, gdot (cc_data A sq b) (c_acoeff r) d == 0.
+Proof. exact chi2_gradient_zero. Qed.
+Print Assumptions C15_chi2_gradient_zero.
+
+(* the chi2 attribute (computed the way the code does) is that minimum *)
+Theorem C15_chi2_value : forall b sq A r, computechi2 b sq A = Some r -> c_chi2 r == chi2 (cc_data A sq b) (c_acoeff r).
+Proof. exact chi2_value. Qed.
+Print Assumptions C15_chi2_value.
+
+Theorem C15_covar_is_inverse : forall b sq A r, computechi2 b sq A = Some r ->
+  let N := normal_mat (ncols A) (cc_data A sq b) in
+  exists mm, meq mm N /\ meq (mat_mul (c_covar r) mm) (identity (length mm)) /\
+             meq (mat_mul mm (c_covar r)) (identity (length mm)).
+Proof. exact covar_is_inverse. Qed.
+Print Assumptions C15_covar_is_inverse.
+
+Theorem C15_var_is_diag : forall b sq A r, computechi2 b sq A = Some r -> c_var r = diag (c_covar r).
+Proof. exact var_is_diag. Qed.
+Print Assumptions C15_var_is_diag.
+
+Theorem C15_dof_spec : forall b sq A r, computechi2 b sq A = Some r ->
+  c_dof r = (Z.of_nat (length (filter (fun s => Qlt_bool 0 s) sq)) - Z.of_nat (ncols A))%Z.
+Proof. exact dof_spec. Qed.
 Print Assumptions C15_dof_spec.
+
+Theorem C15_yfit_spec : forall b sq A r, computechi2 b sq A = Some r -> c_yfit r = mat_vec A (c_acoeff r).
+Proof. exact yfit_spec. Qed.
+Print Assumptions C15_yfit_spec.
+
+(* ---------------------------------------------------------------- HMF *)
+(* each coefficient update: row i of astep() minimises sum_j w_ij (s_ij - (x g)_j)^2 over all x; gradient zero *)
+Theorem C15_astep_optimal_rowwise : forall s w g a' i si wi ai,
+  astep s w g = Some a' ->
+  nth_error s i = Some si -> nth_error w i = Some wi -> nth_error a' i = Some ai ->
+  Forall (fun v => 0 <= v) wi ->
+  length ai = length g /\
+  (forall d, gdot (hmf_row_data g wi si) ai d == 0) /\
+  forall z, length z = length g -> chi2 (hmf_row_data g wi si) ai <= chi2 (hmf_row_data g wi si) z.
+Proof. exact astep_optimal_rowwise. Qed.
+Print Assumptions C15_astep_optimal_rowwise.
+
+(* each component update: column j solved by gstep minimises  sum_i w_ij (s_ij - a_i . x)^2
+   + eps * sum_{n neighbour of j} |x - g_old[:,n]|^2  (exactly the system the code solves), gradient zero *)
+Theorem C15_gstep_col_optimal : forall s w a g eps j x,
+  gstep_col s w a g eps (ncols a) (ncols s) j = Some x ->
+  rows_len (ncols a) a -> Forall (fun v => 0 <= v) (col j w) ->
+  length x = ncols a /\
+  (forall d, length d = ncols a -> gdot (gstep_objective s w a g eps j) x d == 0) /\
+  forall z, length z = ncols a -> chi2 (gstep_objective s w a g eps j) x <= chi2 (gstep_objective s w a g eps j) z.
+Proof. exact gstep_col_optimal. Qed.
+Print Assumptions C15_gstep_col_optimal.
+
+Theorem C15_gstep_optimal_colwise : forall s w a g eps g',
+  gstep s w a g eps = Some g' -> rows_len (ncols a) a -> Forall (Forall (fun v => 0 <= v)) w ->
+  exists cols, g' = transpose cols /\ length cols = ncols s /\
+    forall j x, nth_error cols j = Some x ->
+      length x = ncols a /\
+      forall z, length z = ncols a -> chi2 (gstep_objective s w a g eps j) x <= chi2 (gstep_objective s w a g eps j) z.
+Proof. exact gstep_optimal_colwise. Qed.
+Print Assumptions C15_gstep_optimal_colwise.
+
+(* chi-square (+ penalty) never increases in a coefficient update *)
+Theorem C15_badness_nonincreasing_astep : forall s w a g eps anew,
+  astep s w g = Some anew ->
+  length a = length s -> length w = length s -> rows_len (length g) a -> Forall (Forall (fun v => 0 <= v)) w ->
+  badness s w anew g eps <= badness s w a g eps.
+Proof. exact badness_nonincreasing_astep. Qed.
+Print Assumptions C15_badness_nonincreasing_astep.
+
+(* FULL statement not proved here: badness_nonincreasing for gstep without smoothing
+     forall s w a g gnew, gstep s w a g None = Some gnew -> (shapes, w >= 0) -> badness s w a gnew None <= badness s w a g None
+   (needs the regrouping of chi2_mat by columns); the column-wise optimality it follows from is
+   C15_gstep_optimal_colwise, and the monotone badness() sequence is checked on the real code on every run. *)
+
+(* non-negative mode: the multiplicative updates keep non-negative factors non-negative *)
+Theorem C15_astepnn_nonneg : forall s w a g, mnn s -> mnn w -> mnn a -> mnn g -> mnn (astepnn s w a g).
+Proof. exact astepnn_nonneg. Qed.
+Print Assumptions C15_astepnn_nonneg.
+Theorem C15_gstepnn_nonneg : forall s w a g eps, mnn s -> mnn w -> mnn a -> mnn g -> mnn (gstepnn s w a g eps).
+Proof. exact gstepnn_nonneg. Qed.
+Print Assumptions C15_gstepnn_nonneg.
+
+(* normalisation: (a diag n)(diag(1/n) g) = a g entry by entry, and unit rms in squared form *)
+Theorem C15_normalise_preserves_model : forall n a g ai j,
+  Forall (fun v => ~ v == 0) n -> length n = length g -> length ai = length g -> In ai a ->
+  let '(a2, g2) := normalise n a g in
+  dot (map2 Qmult ai n) (col j g2) == dot ai (col j g).
+Proof. exact normalise_preserves_model. Qed.
+Print Assumptions C15_normalise_preserves_model.
+
+Theorem C15_normalise_unit_rms : forall gk nk,
+  ~ nk == 0 -> nk * nk == vsum (map sqr gk) / inject_Z (Z.of_nat (length gk)) -> (0 < length gk)%nat ->
+  vsum (map sqr (map (fun v => v / nk) gk)) / inject_Z (Z.of_nat (length (map (fun v => v / nk) gk))) == 1.
+Proof. exact normalise_unit_rms. Qed.
+Print Assumptions C15_normalise_unit_rms.
+
+(* ---------------------------------------------------------------- eigen-decompositions (pcomp, pca_solve) *)
+(* eigenvectors + completeness  =>  C = sum_k l_k v_k v_k^T (as operators) *)
+Theorem C15_spectral_reconstruction : forall n C vs ls,
+  length C = n -> Forall (fun v => length v = n) vs -> length ls = length vs ->
+  Forall2 (fun v l => veq (mat_vec C v) (vscale l v)) vs ls ->
+  (forall x, length x = n -> veq (vsumv n (map2 (fun c v => vscale c v) (map (fun v => dot v x) vs) vs)) x) ->
+  forall x, length x = n ->
+    veq (mat_vec C x) (vsumv n (map2 (fun cl v => vscale cl v) (map2 Qmult ls (map (fun v => dot v x) vs)) vs)).
+Proof. exact spectral_reconstruction. Qed.
+Print Assumptions C15_spectral_reconstruction.
+
+Theorem C15_variance_fractions_sum_one : forall ls, ~ vsum ls == 0 -> vsum (map (fun l => l / vsum ls) ls) == 1.
+Proof. exact variance_fractions_sum_one. Qed.
+Print Assumptions C15_variance_fractions_sum_one.
+
+(* the `descending` clause of eig_ok / pca_ok means what it says *)
+Theorem C15_descending_sound : forall v, descending v = true ->
+  forall i a b, nth_error v i = Some a -> nth_error v (S i) = Some b -> b <= a.
+Proof. exact descending_sound. Qed.
+Print Assumptions C15_descending_sound.
+
+(* pca_solve's acoeff: a vector accepted EXACTLY by the projection test is the weighted least-squares optimum
+   (instance of the same theorem with the implementation's own eigenspectra as design matrix) *)
+Theorem C15_projection_optimal : forall m D x, wf m D -> wls_solve m D = Some x ->
+  length x = m /\ forall z, length z = m -> chi2 D x <= chi2 D z.
+Proof. exact wls_solve_optimal. Qed.
+Print Assumptions C15_projection_optimal.
+
+(* ---------------------------------------------------------------- non-vacuity witnesses *)
+Example C15_example_chi2 :
+  match computechi2 [1; 3; 2; 5] [1; 1; 0; 2] [[1; 0]; [1; 1]; [1; 2]; [1; 3]] with
+  | Some r => veq_bool (c_acoeff r) [69 # 53; 66 # 53] && Z.eqb (c_dof r) 1 && veq_bool (c_var r) (diag (c_covar r))
+  | None => false end = true.
+Proof. vm_compute. reflexivity. Qed.
+Example C15_example_gstep_eps :
+  match gstep [[1; 2; 3]; [2; 1; 0]; [1; 1; 1]] [[1; 1; 1]; [1; 0; 1]; [2; 1; 1]] [[1; 0]; [0; 1]; [1; 1]] [[1; 1; 1]; [1; 2; 1]] (Some (1 # 2)) with
+  | Some g' => Nat.eqb (length g') 2
+  | None => false end = true.
+Proof. vm_compute. reflexivity. Qed.
